@@ -8,10 +8,10 @@ for d in seeded/*/; do
   checks=$(python3 -c "import json;print(' '.join(json.load(open('$d/meta.json'))['caught_by']))")
   git -C /repo apply /verif/$d/patch.diff 2>/dev/null || { echo "$name: PATCH DOES NOT APPLY"; continue; }
   for c in $checks; do
-    ./check $c --tier quick > /tmp/seedall.log 2>&1; rc=$?
-    n=$(grep -c '^VIOLATION' /tmp/seedall.log)
-    echo "$name $c rc=$rc violations=$n $(grep -E '^HARNESS' /tmp/seedall.log | head -1 | cut -c1-120)"
+    ./check $c --tier quick > /tmp/seedall.$$.log 2>&1; rc=$?
+    n=$(grep -c '^VIOLATION' /tmp/seedall.$$.log)
+    echo "$name $c rc=$rc violations=$n $(grep -E '^HARNESS' /tmp/seedall.$$.log | head -1 | cut -c1-120)"
   done
   git -C /repo checkout -- . ; git -C /repo clean -fdq
 done
-rm -f /tmp/seedall.log
+rm -f /tmp/seedall.$$.log
